@@ -424,6 +424,41 @@ func driveC05(o opts) error {
 					stepJ = map[string]interface{}{"delete": u}
 				}
 			}
+			// ---- reads must leave the indexes alone: a few queries that go through the indexes (an indexed condition
+			// together with a condition only some of the rows satisfy), before the indexes are compared with the rows
+			{
+				cols := c05Cols()
+				var rl []map[string]val.Val
+				var ul []string
+				for u, m := range rcache.Rows() {
+					ul = append(ul, u)
+					rl = append(rl, db.RowMap(m, T))
+				}
+				for q := 0; q < 3 && len(rl) > 0; q++ {
+					src := rl[g.Intn(len(rl))]
+					var cs []Cond
+					for _, s := range specs {
+						if g.Chance(0.6) {
+							for _, ck := range s.Cols {
+								if ck.Key == nil {
+									cs = append(cs, Cond{Col: ck.Col, Fn: "==", Arg: src[ck.Col]})
+								} else if c := colOf(cols, ck.Col); c != nil {
+									v := val.Val{K: 'm'}
+									for _, p := range src[ck.Col].Map {
+										if p[0].Key() == ck.Key.Key() {
+											v.Map = append(v.Map, p)
+										}
+									}
+									cs = append(cs, Cond{Col: ck.Col, Fn: "includes", Arg: v})
+								}
+							}
+						}
+					}
+					cs = append(cs, genCond(g, cols, rl, ul, 4, 2))
+					_, _ = rcache.RowsByCondition(toOvsConds(cols, cs))
+				}
+				w.Count("queries before the snapshot")
+			}
 			// ---- snapshot
 			code := errCode(err)
 			rows := rcache.Rows()
